@@ -517,7 +517,19 @@ func (f *Frame) callWrites(c *ssa.CallCommon, set map[string]bool) {
 			}
 		}
 	case *ssa.Function:
-		for r := range f.u.eng.writeSet(f.u, callee, map[*ssa.Function]bool{}) {
+		ws := f.u.eng.writeSet(f.u, callee, map[*ssa.Function]bool{})
+		if ws["*"] && !isRepoPkg(funcPkgPath(callee)) {
+			// external function with interface parameters: it can reach /repo state only through
+			// the methods of the values passed to it (callbacks). If every interface argument is a
+			// boxed value of a known /repo type, the write set is that of the methods it may call.
+			if cb, ok := f.callbackWrites(c); ok {
+				for r := range cb {
+					set[r] = true
+				}
+				return
+			}
+		}
+		for r := range ws {
 			set[r] = true
 		}
 	case *ssa.MakeClosure:
@@ -1156,6 +1168,16 @@ func (f *Frame) siteHook(kind string, ins ssa.Instruction, st *State, extra map[
 				continue
 			}
 			f.u.oblige("site", fmt.Sprintf("%s/at[%s]/%d.%d", f.u.name, s.Pattern, f.siteHit[s]-1, i), a.Text, f.u.eng.pos(ins.Pos()), st.reach, t)
+		case "assume":
+			a := s.Assumes[act.Idx]
+			ce := f.cenv(lookup, st.heap, f.entrySt.heap)
+			t, err := ce.evalBool(a.E)
+			if err != nil {
+				f.errorf("site %q assume %q: %v", s.Pattern, a.Text, err)
+				continue
+			}
+			f.u.assume(st.reach, t)
+			f.u.usedAssumes = append(f.u.usedAssumes, "assumed at "+s.Pattern+": "+a.Text)
 		case "use":
 			f.applyLemma(s.Uses[act.Idx], "site "+s.Pattern, lookup, st)
 		case "ghost":
@@ -1351,4 +1373,61 @@ func (f *Frame) havocRegion(st *State, r string) {
 		}
 	}
 	st.heap[r] = u.freshDef("h", nh)
+}
+
+// callbackWrites: union of the write sets of the methods an external callee may invoke
+// on its interface-typed arguments, when their static (boxed) types are known.
+func (f *Frame) callbackWrites(c *ssa.CallCommon) (map[string]bool, bool) {
+	out := map[string]bool{}
+	sig := c.Signature()
+	for i, a := range c.Args {
+		var pt types.Type
+		if i < sig.Params().Len() {
+			pt = sig.Params().At(i).Type()
+		} else if sig.Variadic() && sig.Params().Len() > 0 {
+			pt = sig.Params().At(sig.Params().Len() - 1).Type()
+		}
+		if pt == nil {
+			continue
+		}
+		it, isIface := pt.Underlying().(*types.Interface)
+		if !isIface {
+			if _, isFunc := pt.Underlying().(*types.Signature); isFunc {
+				return nil, false
+			}
+			if sl, isSl := pt.Underlying().(*types.Slice); isSl {
+				if _, el := sl.Elem().Underlying().(*types.Interface); el {
+					return nil, false
+				}
+			}
+			continue
+		}
+		if isErrorType(pt) {
+			continue
+		}
+		mi, ok := a.(*ssa.MakeInterface)
+		if !ok {
+			return nil, false
+		}
+		bt := mi.X.Type()
+		if it.NumMethods() == 0 {
+			// interface{}: reflection-based access possible
+			return nil, false
+		}
+		ms := f.u.eng.prog.MethodSets.MethodSet(bt)
+		for k := 0; k < it.NumMethods(); k++ {
+			sel := ms.Lookup(it.Method(k).Pkg(), it.Method(k).Name())
+			if sel == nil {
+				return nil, false
+			}
+			mfn := f.u.eng.prog.MethodValue(sel)
+			if mfn == nil {
+				return nil, false
+			}
+			for r := range f.u.eng.writeSet(f.u, mfn, map[*ssa.Function]bool{}) {
+				out[r] = true
+			}
+		}
+	}
+	return out, true
 }
